@@ -171,8 +171,32 @@ def goal_args(goal):
     return {'default': [], 'all': ['-a']}.get(g, None) if g in ('default', 'all') else ([str(goal['n'])] if g == 'count' else [goal['s']])
 
 
+def dry_prelude(w, args, skip=()):
+    """C10 on an arbitrary workspace: the same push with --dry-run first.  Returns (problems, (rc, failing patch))."""
+    import p_tool
+    before = ws.snapshot(w, skip=skip, meta=True)
+    rc, so, se = ws.push(w, list(args) + ['--dry-run'])
+    after = ws.snapshot(w, skip=skip, meta=True)
+    probs = []
+    if ws.crashed(rc):
+        probs.append(('crash', 'dry run exits with %s: %s' % (rc, se.strip()[-200:])))
+    if after != before:
+        ch = sorted(p_ for p_ in set(after) | set(before) if after.get(p_) != before.get(p_))
+        probs.append(('dry-wrote', '--dry-run changed %s' % ch))
+    return probs, (rc, p_tool.failing_name(se), se.strip()[-160:])
+
+
+def dry_compare(pre, rc, se):
+    import p_tool
+    if (pre[0], pre[1]) != (rc, p_tool.failing_name(se)):
+        return [('dry-predicts', 'dry run says exit %s / failing %s (%s), the real run exit %s / failing %s (%s)'
+                 % (pre[0], pre[1], pre[2], rc, p_tool.failing_name(se), se.strip()[-160:]))]
+    return []
+
+
 def state_job(job):
-    case, threads = job
+    case, threads = job[0], job[1]
+    dry, failpos = (job[2], job[3]) if len(job) > 2 else (False, 0)
     st, v = case['st'], case['verdict']
     n = st['n']
     w = ws.mkws('c17')
@@ -187,11 +211,16 @@ def state_job(job):
                 if st['broken']['how'] != 'missing':
                     ws.write(w, 'patches/' + name, BROKEN[st['broken']['how']])
                 continue
-            fp = {'kind': 'M', 'old': 'a', 'new': 'a', 'ren': False, 'hunks': [{'cell': i, 'from': 0, 'to': 1}], 'to': [], 'from': [], 'nmode': 'none'}
+            # failpos (C10 only): this patch does not apply (it expects a cell value the file never has)
+            fp = {'kind': 'M', 'old': 'a', 'new': 'a', 'ren': False, 'hunks': [{'cell': i, 'from': 7 if i == failpos else 0, 'to': 1}], 'to': [], 'from': [], 'nmode': 'none'}
             ws.write(w, 'patches/' + name, scen.render_fp(fp))
         ws.write(w, 'series', ('\n'.join(st['series']) + '\n').encode())
         if applied:
             ws.write(w, '.pc/applied-patches', ('\n'.join(applied) + '\n').encode())
+        if dry:
+            probs, pre = dry_prelude(w, goal_args(st['goal']) + ['-q', '--threads', threads])
+            rc, so, se = ws.push(w, goal_args(st['goal']) + ['-q', '--threads', threads])
+            return probs + dry_compare(pre, rc, se)
         before = ws.snapshot(w, meta=True)
         rc, so, se = ws.push(w, goal_args(st['goal']) + ['-q', '--threads', threads])
         after = ws.snapshot(w, meta=True)
